@@ -310,7 +310,7 @@ class Interp:
             return st.env[e.id]
         if e.id in self.spec.get("globals", {}):
             return self.spec["globals"][e.id]
-        if e.id in ("list", "float", "len", "hasattr", "isinstance", "str", "ValueError", "TypeError", "KeyError", "NameError", "set"):
+        if e.id in ("list", "float", "int", "len", "hasattr", "isinstance", "str", "ValueError", "TypeError", "KeyError", "NameError", "set"):
             return e.id
         raise Unsupported("unknown name %s" % e.id)
 
@@ -501,6 +501,8 @@ class Interp:
                 return float(args[0])
             if isinstance(args[0], XR):
                 return args[0]
+        if f in ("int", "float") and len(args) == 1 and self.spec.get("convert") is not None:
+            return self.spec["convert"](self, st, f, args[0])
         if f == "len" and len(args) == 1 and isinstance(args[0], Lst):
             return z3.Length(args[0].s)
         if f == "str":
